@@ -29,7 +29,7 @@ func (p *Prop) Meta() simkit.Meta {
 		Real: []string{"stats.LinearHist", "stats.LogHist", "stats.HistogramQuantile", "stats.HistogramIQR"},
 		Stub: []string{"producer", "stub Histogram (drawn counters) for a quarter of the runs"},
 		Assumptions: []string{
-			"NewLogHist with max<=1, LogHist.Add(x<=0), NaN/Inf, and values more than 1e6 bin widths outside the range are not generated (int conversion of such values is platform-defined)",
+			"NewLogHist with max<=1, NaN/Inf, and values more than 1e6 bin widths outside the range are not generated (int conversion of such values is platform-defined); LogHist.Add(x<=0) IS generated and must land in the under count (on amd64 the conversion of -Inf/NaN yields a negative index, which the pinned code already counts as under)",
 			"bins are at least 1e6 ulps of the range end points wide",
 			"a value within 16*eps*(|min|+|max|+|x|) of an edge (LogHist: 16*eps*(1+|ln x|) in log space) may fall on either side, as the statement allows",
 			"the statement does not fix whether the floor(q*total)-th smallest sample is counted from 0 or from 1: a result is accepted if it is consistent with either reading (in-bin rank +-1), so only what both readings imply is demanded",
@@ -219,11 +219,15 @@ func (c *ctx) snapshot() []uint {
 	return append(s, o)
 }
 
-var valueClasses = []string{"far-below", "just-below-first", "on-edge", "edge-1ulp", "edge+1ulp", "interior", "last-edge", "above"}
+var valueClasses = []string{"far-below", "just-below-first", "on-edge", "edge-1ulp", "edge+1ulp", "interior", "last-edge", "above", "non-positive"}
 
 func (c *ctx) genValue() (float64, int) {
 	s := c.sh
 	cls := c.g.Pick(1, 3, 3, 2, 2, 4, 1, 2)
+	if s.log && c.g.Chance(1, 12) {
+		// zero and negative samples are below the first bin (edge b^0 = 1) of a LogHist
+		return []float64{0, -1, -0.5, -1e6, math.Copysign(0, -1)}[c.g.Intn(5)], 8
+	}
 	n := float64(s.nbins)
 	var x float64
 	switch cls {
@@ -261,7 +265,7 @@ func (c *ctx) genValue() (float64, int) {
 
 func (c *ctx) add() {
 	x, cls := c.genValue()
-	if math.IsNaN(x) || math.IsInf(x, 0) || (c.sh.log && !(x > 0)) {
+	if math.IsNaN(x) || math.IsInf(x, 0) || (c.sh.log && !(x > 0) && cls != 8) {
 		return
 	}
 	c.logf("Add(%v) [%s]", x, valueClasses[cls])
@@ -312,6 +316,13 @@ func (c *ctx) add() {
 	}
 	c.prev = cur
 	// (ii) placement by the stated edges
+	if cls == 8 {
+		c.probe("loghist_non_positive_value")
+		if moved != 0 {
+			c.fail("placement", "Add", valueClasses[cls], "%s%s Add(%v) incremented %s; a non-positive value is below the first bin and belongs in the under count", c.kind(), c.shapeStr(), x, c.slotName(moved))
+		}
+		return
+	}
 	idx, lok, uok := c.sh.place(x)
 	want := c.sh.counter(idx)
 	ok := moved == want
